@@ -153,6 +153,39 @@ pub fn check(c: &CliCase) -> Option<String> {
     result
 }
 
+/// what `iwe contents` and `iwe paths --depth d` print for the case's library (lines; blank lines of `contents` left out)
+pub fn outputs(c: &CliCase) -> Option<Result<(Vec<String>, Vec<String>), String>> {
+    let root = PathBuf::from(format!("/verif/harness/tmp/cli-out-{}-{}", std::process::id(), c.tag));
+    let _ = std::fs::remove_dir_all(&root);
+    std::fs::create_dir_all(&root).ok()?;
+    let result = (|| -> Option<Result<(Vec<String>, Vec<String>), String>> {
+        if let Err(e) = run(&root, &["init"]) {
+            return Some(Err(e));
+        }
+        let cfg_path = root.join(".iwe/config.toml");
+        let cfg = std::fs::read_to_string(&cfg_path).ok()?;
+        let cfg = cfg.replacen("refs_extension = \"\"", &format!("refs_extension = \"{}\"", c.ext), 1).replacen("path = \"\"", &format!("path = \"{}\"", c.sub), 1);
+        std::fs::write(&cfg_path, cfg).ok()?;
+        let lib_dir = if c.sub.is_empty() { root.clone() } else { root.join(c.sub) };
+        for (k, t) in c.lib {
+            let p = lib_dir.join(format!("{}.md", k));
+            std::fs::create_dir_all(p.parent()?).ok()?;
+            std::fs::write(&p, t).ok()?;
+        }
+        let contents = match run(&root, &["contents"]) {
+            Ok(o) => o.lines().filter(|l| !l.is_empty()).map(|l| l.to_string()).collect(),
+            Err(e) => return Some(Err(e)),
+        };
+        let paths = match run(&root, &["paths", "--depth", &c.paths_depth.to_string()]) {
+            Ok(o) => o.lines().map(|l| l.to_string()).collect(),
+            Err(e) => return Some(Err(e)),
+        };
+        Some(Ok((contents, paths)))
+    })();
+    let _ = std::fs::remove_dir_all(&root);
+    result
+}
+
 impl<'a> CliCase<'a> {
     /// the failing case as it goes into a replay file
     pub fn failure(&self, what: String) -> serde_json::Value {
